@@ -83,7 +83,10 @@ fn body(extra: Vec<(u64, Node)>, out_value: Node) -> Node {
 
 /// Build the bytes for a case and decode at the site's type. Returns Ok(extracted value) or Err.
 fn probe(c: &Case) -> (Vec<u8>, Result<i128, String>) {
-    let p = c.node();
+    probe_node(c, c.node())
+}
+
+fn probe_node(c: &Case, p: Node) -> (Vec<u8>, Result<i128, String>) {
     let coin = cborx::uint(2_000_000);
     let pair = |a: Node, b: Node| if c.indef { cborx::array_indef(vec![a, b]) } else { cborx::array(vec![a, b]) };
     let find_asset = |ma: &std::collections::BTreeMap<conway::PolicyId, std::collections::BTreeMap<conway::AssetName, PositiveCoin>>| -> i128 {
@@ -184,6 +187,34 @@ fn check(c: &Case, obs: &mut Obs) -> Result<(), Fail> {
         }
     }
     obs.nontrivial_if(num == 0);
+    Ok(())
+}
+
+/// The quantity written as a big number (tag 2 / tag 3 over a byte string): the CDDL's `uint`/`int` positions do not ask
+/// for it and the library refuses it today; whether it is accepted is not judged, but whatever comes out of the decoder
+/// must not be a wrapper holding zero (magnitudes whose low 64 bits are zero are the interesting ones).
+#[derive(Debug, Clone, Serialize, Deserialize)]
+pub struct BigCase {
+    site: Site,
+    neg: bool,
+    #[serde(with = "pvkit::cborx::hexser")]
+    mag: Vec<u8>,
+    slot: u8,
+}
+
+fn check_big(c: &BigCase, obs: &mut Obs) -> Result<(), Fail> {
+    let base = Case { site: c.site, neg: c.neg, v: 0, w: W::Imm, slot: c.slot, indef: false };
+    let node = cborx::tag(if c.neg { 3 } else { 2 }, cborx::bytes(&c.mag));
+    let (bytes, r) = probe_node(&base, node);
+    let site = format!("{:?}", c.site);
+    match &r {
+        Ok(x) => {
+            obs.class(format!("{site}:bignum-accepted"));
+            pv_ensure!(*x != 0, format!("zero-produced:{site}:bignum"), "{} decoded to a wrapper holding zero", hex::encode(&bytes));
+        }
+        Err(_) => obs.class(format!("{site}:bignum-refused")),
+    }
+    obs.nontrivial_if(c.mag.iter().rev().take(8).all(|b| *b == 0));
     Ok(())
 }
 
@@ -308,6 +339,25 @@ pub fn run(s: &Session) {
         }
     }
     s.foreach("boundary-family", fam, true, check);
+    let mut big = vec![];
+    let z = |n: usize| vec![0u8; n];
+    let lead = |first: u8, zeros: usize| {
+        let mut v = vec![first];
+        v.extend(vec![0u8; zeros]);
+        v
+    };
+    let mags_big: Vec<Vec<u8>> = vec![
+        vec![], z(1), z(2), z(7), z(8), z(9), z(16), lead(1, 8), lead(2, 8), lead(0xff, 8), lead(1, 9), lead(1, 16), lead(0x80, 7), vec![1], vec![0, 1],
+        vec![0xff; 8], vec![0xff; 9], lead(1, 4), lead(1, 3),
+    ];
+    for site in SITES {
+        for neg in [false, true] {
+            for mag in &mags_big {
+                big.push(BigCase { site, neg, mag: mag.clone(), slot: (mag.len() % 3) as u8 });
+            }
+        }
+    }
+    s.foreach("bignum-forms", big, true, check_big);
     let mut ctor: Vec<i128> = vec![];
     for &m in &mags {
         ctor.push(m as i128);
